@@ -72,6 +72,62 @@ impl C05 {
     }
 }
 
+/// the two accepted assignments and the call alphabet of the C05 sequences
+fn seq_assignments() -> (CircuitInputs, CircuitInputs) {
+    let a = default_inputs();
+    let mut b = default_inputs();
+    b.secret = p() - big(1);
+    b.id = big(99);
+    b.bits = (0..20).map(|k| big((k % 2) as u64)).collect();
+    b.path = (0..20u64).map(|k| big(77 + k) * pow2(200) + big(3 * k)).collect();
+    (a, b)
+}
+
+impl C05 {
+    /// A sequence of witness computations on ONE fresh thread. codes: 0 assignment A, 1 assignment B (both accepted
+    /// by the reference generator), 2 A with 19 path elements, 3 A with an input name the graph does not declare,
+    /// 4 B with 21 direction values (2..4 must be refused; what they return is not judged beyond that). Every
+    /// accepted call must return the reference witness whatever was computed or refused before it.
+    fn seq(&self, codes: &[u8]) -> Vec<Discrepancy> {
+        let case = json!({"kind": "seq", "calls": codes});
+        let (a, b) = seq_assignments();
+        let wa = match node_witness(&verif_dir(), &a) { Ok(Ok(w)) => w, _ => return vec![Discrepancy { key: "MACHINERY".into(), case, detail: "reference witness for assignment A".into() }] };
+        let wb = match node_witness(&verif_dir(), &b) { Ok(Ok(w)) => w, _ => return vec![Discrepancy { key: "MACHINERY".into(), case, detail: "reference witness for assignment B".into() }] };
+        let codes: Vec<u8> = codes.to_vec();
+        let h = std::thread::spawn(move || -> Vec<(usize, &'static str, String)> {
+            let mut bad = vec![];
+            for (k, c) in codes.iter().enumerate() {
+                let (named, want): (Vec<(String, Vec<Fr>)>, Option<&Vec<BigUint>>) = match c {
+                    0 => (named_inputs(&a), Some(&wa)),
+                    1 => (named_inputs(&b), Some(&wb)),
+                    2 => { let mut n = named_inputs(&a); n[3].1.truncate(19); (n, None) }
+                    3 => { let mut n = named_inputs(&a); n.push(("notAnInput".to_string(), vec![to_fr(&big(1))])); (n, None) }
+                    _ => { let mut n = named_inputs(&b); n[4].1.push(to_fr(&big(0))); (n, None) }
+                };
+                let r = guard(|| rln::circuit::try_calculate_rln_witness(named, graph_from_folder()).map(|w| w.iter().map(from_fr).collect::<Vec<BigUint>>()).map_err(|e| e.to_string()));
+                match (r, want) {
+                    (Err(pn), _) => bad.push((k, "panic", pn)),
+                    (Ok(Ok(_)), None) => bad.push((k, "malformed-accepted", "an assignment with a wrong vector length / unknown name was evaluated".into())),
+                    (Ok(Err(_)), None) => {}
+                    (Ok(Err(e)), Some(_)) => bad.push((k, "refused", format!("an assignment the reference generator accepts was refused: {e}"))),
+                    (Ok(Ok(got)), Some(w)) => {
+                        if got.len() != w.len() {
+                            bad.push((k, "wrong-length", format!("{} elements, the reference {}", got.len(), w.len())));
+                        } else if let Some(i) = got.iter().zip(w.iter()).position(|(x, y)| x != y) {
+                            bad.push((k, "wrong-signal", format!("signal {i}: expected {} got {}", w[i], got[i])));
+                        }
+                    }
+                }
+            }
+            bad
+        });
+        match h.join().unwrap_or_default().first() {
+            Some((k, sym, d)) => vec![Discrepancy { key: format!("C05/after-other-calls/{sym}"), case, detail: format!("call number {k} of the sequence: {d}") }],
+            None => vec![],
+        }
+    }
+}
+
 fn permutations(n: usize) -> Vec<Vec<usize>> {
     fn rec(cur: &mut Vec<usize>, used: &mut Vec<bool>, n: usize, out: &mut Vec<Vec<usize>>) {
         if cur.len() == n {
@@ -97,6 +153,9 @@ impl Prop for C05 {
     fn id(&self) -> &'static str { "C05" }
     fn level(&self) -> &'static str { "exploration" }
     fn run_case(&self, case: &Value) -> Vec<Discrepancy> {
+        if case["kind"] == "seq" {
+            return self.seq(&case["calls"].as_array().cloned().unwrap_or_default().iter().map(|x| x.as_u64().unwrap_or(0) as u8).collect::<Vec<u8>>());
+        }
         let ci = match CircuitInputs::from_json(&case["inputs"]) { Some(c) => c, None => return vec![] };
         let perm: Option<Vec<usize>> = case["perm"].as_array().map(|a| a.iter().filter_map(|x| x.as_u64().map(|y| y as usize)).collect());
         self.one(&ci, case["class"].as_str().unwrap_or("replay"), perm.as_deref()).0
@@ -152,13 +211,38 @@ impl Prop for C05 {
         for r in rres {
             findings.report_all(r);
         }
-        ev.set("evaluations", json!(cases.len() + perms.len() + spread.len() * 6));
+        // sequences of accepted and refused computations on one fresh thread
+        let mut seqs: Vec<Vec<u8>> = vec![];
+        {
+            let mut cur: Vec<Vec<u8>> = vec![vec![]];
+            for _ in 0..(if q { 3 } else { 4 }) {
+                let mut next = vec![];
+                for h in &cur {
+                    for c in 0u8..5 {
+                        let mut n = h.clone();
+                        n.push(c);
+                        next.push(n);
+                    }
+                }
+                seqs.extend(next.iter().cloned());
+                cur = next;
+            }
+        }
+        let sres = par_map(&seqs, ncpu(), |_, sq| self.seq(sq));
+        for r in sres {
+            if let Some(d) = r.iter().find(|d| d.key == "MACHINERY") {
+                return Err(d.detail.clone());
+            }
+            findings.report_all(r);
+        }
+        ev.set("call_sequences_on_one_thread", json!(seqs.len()));
+        ev.set("evaluations", json!(cases.len() + perms.len() + spread.len() * 6 + seqs.len()));
         ev.set("accepted_by_reference", json!(accepted));
         ev.set("rejected_by_reference", json!(cases.len() as u64 - accepted));
         ev.set("input_order_permutations", json!(perms.len()));
         ev.set("deviation_bound", json!(if q { 1 } else { 2 }));
         ev.set("exhaustive", json!(true));
-        ev.set("rule", json!("every assignment of the 46 circuit inputs within k deviations of the default over the coordinates {secret, x, external nullifier: F* + 64-bit limb boundaries + seeded randoms; (limit,id) pairs; one path element (position x value); direction-bit pattern}; each is evaluated by the reference generator (rln.wasm under node) and, when accepted, by calculate_rln_witness twice; all 5844 signals are compared; input-order permutations of the seven named inputs; distinct_nontrivial = distinct grid vectors accepted by the reference"));
+        ev.set("rule", json!("every assignment of the 46 circuit inputs within k deviations of the default over the coordinates {secret, x, external nullifier: F* + 64-bit limb boundaries + seeded randoms; (limit,id) pairs; one path element (position x value); direction-bit pattern}; each is evaluated by the reference generator (rln.wasm under node) and, when accepted, by calculate_rln_witness twice; all 5844 signals are compared; input-order permutations of the seven named inputs; every sequence of up to 3 (thorough 4) computations over {assignment A, assignment B, three refused assignments} on one fresh thread, every accepted one compared with the reference witness; distinct_nontrivial = distinct grid vectors accepted by the reference"));
         ev.set("alphabets", json!(coords.iter().map(|c| json!({"coordinate": c.name, "size": c.alts.len()})).collect::<Vec<_>>()));
         for (idx, ci) in cases.iter().step_by((cases.len() / 4).max(1)).take(4) {
             ev.sample(json!({"deviation": dev_class(&coords, idx), "inputs": ci.to_json()}));
@@ -242,10 +326,97 @@ impl C04 {
     }
 }
 
+impl C04 {
+    /// A sequence of generate_rln_proof requests on ONE thread against one tree holding two members. codes: 0 a valid
+    /// request of member 1, 1 a valid request of member 2, 2 member 2 with message id = limit (must be refused),
+    /// 3 member 1 with message id above the limit (must be refused), 4 member 2, valid, another signal and epoch,
+    /// 5 not a request: a third leaf is written (first time) or removed again (next time), so the root changes.
+    /// Bytes 128..288 of every message returned must be root|ext|x|y|nullifier of the formulas for that request.
+    /// The sequence runs on a thread of its own (and an instance of its own), so nothing computed for another
+    /// sequence is around.
+    fn seq(&self, codes: &[u8]) -> Vec<Discrepancy> {
+        let codes: Vec<u8> = codes.to_vec();
+        std::thread::spawn(move || C04.seq_here(&codes)).join().unwrap_or_default()
+    }
+    fn seq_here(&self, codes: &[u8]) -> Vec<Discrepancy> {
+        use super::msg::Req;
+        use crate::refmodel::tree::IdealTree;
+        let case = json!({"kind": "seq", "calls": codes});
+        let d = Req::default_req();
+        let m1 = d.clone();
+        let m2 = Req { secret: p() - big(1), index: 1 << 19, limit: big(7), id: big(6), ..d.clone() };
+        let reqs: Vec<(Req, bool)> = vec![
+            (m1.clone(), true),
+            (m2.clone(), true),
+            (Req { id: big(7), ..m2.clone() }, false),
+            (Req { id: big(1000), ..m1.clone() }, false),
+            (Req { signal: b"another signal".to_vec(), ext: big(77), id: big(0), ..m2.clone() }, true),
+        ];
+        let codes: Vec<u8> = codes.to_vec();
+        let r = with_rln(|rln| -> Result<Vec<(usize, &'static str, String)>, String> {
+            rln.set_tree(DEPTH).map_err(|e| e.to_string())?;
+            let mut model = IdealTree::new(DEPTH);
+            for m in [&m1, &m2] {
+                let rate = rate_commitment(&m.secret, &m.limit);
+                rln.set_leaf(m.index as usize, Cursor::new(codec::fr(&rate))).map_err(|e| e.to_string())?;
+                model.set(m.index, &rate);
+            }
+            let mut bad = vec![];
+            let mut third = false;
+            for (k, c) in codes.iter().enumerate() {
+                if *c == 5 {
+                    third = !third;
+                    let v = if third { big(4242) } else { big(0) };
+                    if third {
+                        rln.set_leaf(77, Cursor::new(codec::fr(&v))).map_err(|e| e.to_string())?;
+                        model.set(77, &v);
+                    } else {
+                        rln.delete_leaf(77).map_err(|e| e.to_string())?;
+                        model.remove(77);
+                    }
+                    continue;
+                }
+                let (rq, valid) = &reqs[*c as usize % reqs.len()];
+                let got = guard(|| {
+                    let mut o = Cursor::new(Vec::<u8>::new());
+                    rln.generate_rln_proof(Cursor::new(rq.prove_input()), &mut o).map(|_| o.into_inner()).map_err(|e| e.to_string())
+                });
+                match (got, valid) {
+                    (Err(pn), _) => bad.push((k, "panic", pn)),
+                    (Ok(Ok(_)), false) => bad.push((k, "invalid-request-proved", "a request with message id >= limit produced a message".into())),
+                    (Ok(Err(_)), false) => {}
+                    (Ok(Err(e)), true) => bad.push((k, "error", format!("a valid request was refused: {e}"))),
+                    (Ok(Ok(bytes)), true) => {
+                        let (path, bits) = model.path(rq.index);
+                        let ci = CircuitInputs { secret: rq.secret.clone(), limit: rq.limit.clone(), id: rq.id.clone(), path, bits: bits.iter().map(|b| big(*b as u64)).collect(), x: crate::refmodel::keccak::hash_to_field(&rq.signal), ext: rq.ext.clone() };
+                        let want = codec::proof_values(&ref_values(&ci));
+                        if bytes.len() != 288 || bytes[128..] != want[..] {
+                            let names = ["root", "external nullifier", "x", "y", "nullifier"];
+                            let which = (0..5).find(|f| bytes.len() == 288 && bytes[128 + 32 * f..160 + 32 * f] != want[32 * f..32 * f + 32]).map(|f| names[f]).unwrap_or("length");
+                            bad.push((k, "wrong-bytes", format!("bytes 128..288 of the message differ from the formulas ({which})")));
+                        }
+                    }
+                }
+            }
+            Ok(bad)
+        });
+        match r {
+            Err(e) => { discard_rln(); vec![Discrepancy { key: "C04/message/sequence/setup-error".into(), case, detail: e }] }
+            Ok(bad) => match bad.first() {
+                Some((k, sym, dd)) => { if *sym == "panic" { discard_rln(); } vec![Discrepancy { key: format!("C04/message/sequence/{sym}"), case, detail: format!("request number {k} of the sequence: {dd}") }] }
+                None => vec![],
+            },
+        }
+    }
+}
+
 impl Prop for C04 {
     fn id(&self) -> &'static str { "C04" }
     fn level(&self) -> &'static str { "exploration" }
     fn run_case(&self, case: &Value) -> Vec<Discrepancy> {
+        if case["kind"] == "seq" {
+            return self.seq(&case["calls"].as_array().cloned().unwrap_or_default().iter().map(|x| x.as_u64().unwrap_or(0) as u8).collect::<Vec<u8>>());
+        }
         if let (Some(a), Some(b)) = (CircuitInputs::from_json(&case["first"]), CircuitInputs::from_json(&case["inputs"])) {
             // a sequence of two computations on this thread, the second one judged
             let (wa, wb) = (witness_bytes(&a), witness_bytes(&b));
@@ -327,13 +498,36 @@ impl Prop for C04 {
                 }
             }
         }
-        ev.set("evaluations", json!(cases.len() as u64 + seq_pairs));
+        // request sequences on one thread and one tree with two members, refused requests in between: every sequence
+        // of length <= 3 that ends with a valid request (the ones before it are the history)
+        let mut seqs: Vec<Vec<u8>> = vec![];
+        for a in 0u8..6 {
+            for b in 0u8..6 {
+                for c in [0u8, 1, 4] {
+                    seqs.push(vec![a, b, c]);
+                }
+            }
+        }
+        for b in 0u8..6 {
+            for c in [0u8, 1, 4] {
+                seqs.push(vec![b, c]);
+            }
+        }
+        if !q {
+            for a in 0u8..6 { for b in 0u8..6 { for c in 0u8..6 { for e in [0u8, 1, 4] { seqs.push(vec![a, b, c, e]); } } } }
+        }
+        let sres = par_map(&seqs, ncpu(), |_, sq| self.seq(sq));
+        for r in sres {
+            findings.report_all(r);
+        }
+        ev.set("request_sequences_on_one_thread", json!(seqs.len()));
+        ev.set("evaluations", json!(cases.len() as u64 + seq_pairs + seqs.len() as u64));
         ev.set("ordered_pairs_of_consecutive_computations", json!(seq_pairs));
         ev.set("accepted_by_reference", json!(accepted));
         ev.set("real_messages_checked", json!(messages));
         ev.set("deviation_bound", json!(if q { 1 } else { 2 }));
         ev.set("exhaustive", json!(true));
-        ev.set("rule", json!("every witness within k deviations of the default over {secret, x, external nullifier: F* + randoms; (limit,id) pairs; one path element (position x value); direction-bit pattern incl. all one-hot, alternating and position-alphabet patterns}; for each witness the circuit accepts: proof_values_from_witness, calculate_rln_witness()[1..6] and (subset) bytes 128..288 of a real message are compared with the reference formulas (reference Poseidon), which are themselves compared with the outputs of rln.wasm on every case; distinct_nontrivial = distinct accepted grid vectors"));
+        ev.set("rule", json!("every witness within k deviations of the default over {secret, x, external nullifier: F* + randoms; (limit,id) pairs; one path element (position x value); direction-bit pattern incl. all one-hot, alternating and position-alphabet patterns}; for each witness the circuit accepts: proof_values_from_witness, calculate_rln_witness()[1..6] and (subset) bytes 128..288 of a real message are compared with the reference formulas (reference Poseidon), which are themselves compared with the outputs of rln.wasm on every case; every sequence of 3 (thorough 4) generate_rln_proof requests over {valid member 1, valid member 2, member 2 with id = limit, member 1 with id > limit, member 2 other signal, a third leaf written / removed} ending in a valid one, each sequence on a fresh thread with its own instance and two-member tree, each message's public values compared with the formulas; distinct_nontrivial = distinct accepted grid vectors"));
         ev.set("alphabets", json!(coords.iter().map(|c| json!({"coordinate": c.name, "size": c.alts.len()})).collect::<Vec<_>>()));
         for (idx, ci) in cases.iter().step_by((cases.len() / 4).max(1)).take(4) {
             ev.sample(json!({"deviation": dev_class(&coords, idx), "inputs": ci.to_json()}));
